@@ -40,7 +40,11 @@ Judge ==
         /\ (IF Ok(e.out) THEN TRUE
             ELSE PrintT("MM " \o ToJson([l |-> l - 1, id |-> e.id, att |-> att, got |-> e.out, allowed |-> Exp, cand |-> Cand])))
         /\ PrintT("ST " \o ToJson([l |-> l - 1, cands |-> Cardinality(Cand), outcomes |-> Cardinality(Exp),
-                                    accept |-> \E x \in Exp : x.o = "accept", pattern |-> \E a \in Cand : a.host \notin {"localhost"}]))
+                                    accept |-> \E x \in Exp : x.o = "accept", pattern |-> \E a \in Cand : a.host \notin {"localhost"},
+                                    k |-> att.proof.k,
+                                    class |-> {Class(att.proof, a.plugin) : a \in Cand},
+                                    natpw |-> \E a \in Cand : a.plugin = "native" /\ a.pw = "pw1" /\ a.locked = "no",
+                                    natnopw |-> \E a \in Cand : a.plugin = "native" /\ a.pw = "none" /\ a.locked = "no"]))
 HW == TLCSet(1, l)
 Accepted == TLCGet(1) = Len(TraceLog) + 1
 =============================================================================
